@@ -55,6 +55,18 @@ static bool option_dispatch(unsigned i)
 }
 '''
 
+PRE += r'''
+/* ---- url_dispatcher option::matches: the method filter and the path test.  booster::regex_match(s, re) is whole-string matching (jobs regex_match*), booster::regex_search is not:
+ *      which of the two the code calls on which expression is recorded */
+struct ropt { int match_method_; };
+enum { RX_PATH, RX_METHOD };
+int g_rx_match_calls[2], g_rx_search_calls; bool g_rx_res[2]; char const *g_rx_subject[2]; bool g_method_eq; int g_method_cmp_calls;
+static bool rx_match(int which, char const *subject) { g_rx_match_calls[which]++; g_rx_subject[which] = subject; return g_rx_res[which]; }
+static bool rx_search(int which, char const *subject) { g_rx_search_calls++; int r; return r != 0; }
+/* `method_ != method` (std::string against char const *): method_ is rendered as a C string that is the request method itself when the two are equal (oracle g_method_eq) and a different object otherwise */
+char g_other_word[4];
+static char const *method_word(char const *method) { g_method_cmp_calls++; return g_method_eq ? method : g_other_word; }
+'''
 functions = [
     dict(cname='regex_match_marks', file=R, locate=r'bool regex::match\(char const \*begin,char const \*end,std::vector<std::pair<int,int> > &marks,int\s*\) const',
          sig='bool regex_match_marks(struct regex_data *d, char const *begin, char const *end, struct marks *marks)', throw_ret='0',
@@ -111,6 +123,21 @@ __CPROVER_assigns(g_tried_upto, g_tried_after_hit, g_hit, g_hit_at)
 __CPROVER_ensures(__CPROVER_return_value ==> (g_hit && g_hit_at < g_opt_n && g_opt_match[g_hit_at] && g_tried_upto == g_hit_at + 1 && !g_tried_after_hit && ((unsigned)g_k < g_hit_at ==> !g_opt_match[g_k])))
 __CPROVER_ensures(!__CPROVER_return_value ==> (!g_hit && ((unsigned)g_k < g_opt_n ==> !g_opt_match[g_k])))
 '''),
+    dict(cname='option_matches', file=D, locate=lit('bool matches(std::string const &path,char const *method)'), sig='bool option_matches(struct ropt *self, char const *path, char const *method)', members=['match_method_'],
+         rewrites=[(r'\bmethod_\b', 'method_word(method)', 1), (r'booster::regex_match\(method,mexpr_\)', 'rx_match(RX_METHOD, method)', 0), (r'booster::regex_search\(method,mexpr_\)', 'rx_search(RX_METHOD, method)', 0),
+                   (r'booster::regex_match\(path\.c_str\(\),match_,expr_\)', 'rx_match(RX_PATH, path)', 0), (r'booster::regex_search\(path\.c_str\(\),match_,expr_\)', 'rx_search(RX_PATH, path)', 0)],
+         contract=r'''
+__CPROVER_requires(__CPROVER_r_ok(self, sizeof(*self)) && g_rx_match_calls[0] == 0 && g_rx_match_calls[1] == 0 && g_rx_search_calls == 0 && g_method_cmp_calls == 0)
+__CPROVER_assigns(__CPROVER_object_whole(g_rx_match_calls), g_rx_search_calls, __CPROVER_object_whole(g_rx_subject), g_method_cmp_calls)
+/* a handler is selected only if the WHOLE path matched its pattern, and - when it has a method filter - the whole request method is equal to the
+   filter word (plain upper-case filters) or matched by the filter expression as a whole (never by a substring search) */
+__CPROVER_ensures(g_rx_search_calls == 0)
+__CPROVER_ensures(__CPROVER_return_value ==> (g_rx_match_calls[RX_PATH] == 1 && g_rx_res[RX_PATH] && g_rx_subject[RX_PATH] == path))
+__CPROVER_ensures((__CPROVER_return_value && self->match_method_ == 1) ==> (method != 0 && g_method_cmp_calls == 1 && g_method_eq))
+__CPROVER_ensures((__CPROVER_return_value && self->match_method_ == 2) ==> (method != 0 && g_rx_match_calls[RX_METHOD] == 1 && g_rx_res[RX_METHOD] && g_rx_subject[RX_METHOD] == method))
+/* and nothing that matches is turned away */
+__CPROVER_ensures(!__CPROVER_return_value ==> ((self->match_method_ == 1 && (method == 0 || !g_method_eq)) || (self->match_method_ == 2 && (method == 0 || !g_rx_res[RX_METHOD])) || !g_rx_res[RX_PATH]))
+'''),
 ]
 
 jobs = [
@@ -125,6 +152,9 @@ jobs = [
     bool m[MAX_OPTS]; __CPROVER_array_copy(g_opt_match, m); unsigned n; __CPROVER_assume(n <= MAX_OPTS); g_opt_n = n; int k; __CPROVER_assume(k >= 0); g_k = k;
     g_hit = 0; g_tried_after_hit = 0; g_tried_upto = 0;
     dispatcher_dispatch(); VERIF_REACH;'''),
+    dict(name='option_matches', props=P, enforce='option_matches', harness=r'''
+    struct ropt o; int r0, r1, me, nm; g_rx_res[0] = r0 != 0; g_rx_res[1] = r1 != 0; g_method_eq = me != 0; g_rx_match_calls[0] = 0; g_rx_match_calls[1] = 0; g_rx_search_calls = 0; g_method_cmp_calls = 0;
+    char pth[4], mth[4]; char const *mp = mth; if(!nm) mp = 0; option_matches(&o, pth, mp); VERIF_REACH;'''),
 ]
 
 UNIT = dict(
